@@ -21,6 +21,7 @@ FIXED = [
     ("c", ["C02", "C13"], "af576dd", "deleting/renaming a space kept values that read its references by attribute path (`_model.P.Ch.r`)"),
     ("H", ["C02", "C07", "C13"], "c60c4b2", "deleting a cells of a child space of a parametrised space kept the ItemSpaces (`I[1].Ch.icc(1)` kept answering)"),
     ("W", ["C07"], "deee8ab", "allow_none of a cells / child space was not carried into ItemSpaces: `A.c(1)` returned None but `A[1].c(1)` raised NoneReturnedError"),
+    ("X", ["C03", "C07"], "c967a5a", "allow_none set on a base cells/space after derivation or instantiation was not passed on to derived cells and live ItemSpaces (`B<-A; A.c.allow_none=True; B.c(1)` raised NoneReturnedError)"),
     ("M", ["C15"], "b10cccc", "export: names in a comprehension following a nested class/def scope were not rewritten to self.<name> (NameError in the package)"),
     ("N", ["C17"], "c0724cd", "nodes rolled back by a failure a formula handled leaked into the next traceback"),
     ("O", ["C04"], "14fa167", "`_is_cached = False` of a lambda-defined cells was written but not read back"),
